@@ -272,6 +272,21 @@ func newAPI(c config, rec *recorder) *apifu.API {
 		}),
 	})
 
+	// a subscription that stays active: one event, then nothing until it is stopped
+	cfg.AddSubscription("hold", &graphql.FieldDefinition{
+		Type: graphql.IntType,
+		Resolve: logged("hold", func(ctx graphql.FieldContext) (interface{}, error) {
+			if ctx.IsSubscribe {
+				ch := make(chan int, 1)
+				ch <- 1
+				return &apifu.SubscriptionSourceStream{EventChannel: ch, Stop: func() {}}, nil
+			} else if ctx.Object != nil {
+				return ctx.Object, nil
+			}
+			return nil, fmt.Errorf("subscriptions are not supported using this protocol")
+		}),
+	})
+
 	if c.Features {
 		cfg.Features = func(ctx context.Context) graphql.FeatureSet {
 			if on, _ := ctx.Value(featKey).(bool); on {
